@@ -147,6 +147,22 @@ def main(run):
                 'lowent': lambda: bytes(rng.choice(b'ab') for _ in range(n))}[kind]()
         traces.append(group(rng, data, make_key(rng), mn, mx, 3 if quick else 8))
         run.case(('rand', i, mn, mx, n, kind), nontrivial=n > mx)
+    # realistic sizes: pieces of megabytes (snapshot reads 16 MiB pieces), streams and last pieces that are exact multiples of 1 MiB, cut
+    # positions at multiples of MiB - thresholds inside the wrapper (buffer steps, slices) are invisible with pieces of a few bytes
+    MiB = 1 << 20
+    for mn, mx in (((4096, 65536),) if quick else ((4096, 65536), (128_000, 5_120_000), (65536, 65536))):
+        for L in ((9 * MiB + 4096, 2 * MiB) if quick else (9 * MiB + 4096, 2 * MiB, 17 * MiB, MiB, 5 * MiB - 4)):
+            data = rng.randbytes(L)
+            key = make_key(rng)
+            t = {'min': mn, 'max': mx, 'events': [], 'resync': 0, 'keyhex': key.hex(), 'stream_len': L}
+            segs = [[L], [MiB] * (L // MiB) + ([L % MiB] if L % MiB else []), [128_000] * (L // 128_000) + ([L % 128_000] if L % 128_000 else [])]
+            if L > 4 * MiB:
+                segs += [[L - MiB, MiB], [L - 2 * MiB, 2 * MiB], [4 * MiB, L - 4 * MiB], [L - 4 * MiB - 4096, 4 * MiB + 4096]]
+            for sid, seg in enumerate(segs):
+                t['events'].append(event('adapter', sid, seg, chunker.adapter(split(data, seg), key, mn, mx), data, 'fresh'))
+            t['events'].append(event('lib', 0, segs[0], chunker.libcuts(split(data, segs[0]), key, mn, mx, 'zero'), data, 'zero'))
+            traces.append(t)
+            run.case(('megabyte-pieces', mn, mx, L))
     if not quick:
         # the default bounds on a 12 MB stream, pieces of 16 MiB / 1 MiB / odd sizes
         data = rng.randbytes(12_000_000)
